@@ -7,6 +7,7 @@
   compiled micro-operations is what the correspondence check ties to /repo.
 -/
 import Robotools.Model.World
+import Robotools.Proofs.ExecLemmas
 namespace Robotools.C02
 open Robotools
 
@@ -29,77 +30,348 @@ def Micro.NonNeg : Micro → Prop
 /-- An addition is accepted iff it does not exceed `max_volume`; then the well holds the sum. -/
 theorem addStep_ok_iff (L : Labware) (i : Nat) (v : Rat) (c : Option Comp) :
     (∃ L', L.addStep i v c = .ok L') ↔ L.vol i + v ≤ L.maxV := by
-  sorry
+  constructor
+  · rintro ⟨L', h⟩
+    exact Rat.not_lt.mp (Labware.addStep_fields h).1
+  · intro h
+    exact Labware.addStep_isOk (Rat.not_lt.mpr h)
 
 theorem addStep_vol (L L' : Labware) (i : Nat) (v : Rat) (c : Option Comp) (hi : i < L.vols.length)
     (h : L.addStep i v c = .ok L') :
     L'.vol i = L.vol i + v ∧ L'.vol i ≤ L.maxV ∧ (∀ j, j ≠ i → L'.vol j = L.vol j)
     ∧ L'.minV = L.minV ∧ L'.maxV = L.maxV ∧ L'.vols.length = L.vols.length := by
-  sorry
+  obtain ⟨hle, hvols, hmin, hmax, -⟩ := Labware.addStep_fields h
+  have hi' : L'.vol i = L.vol i + v := by
+    simp only [Labware.vol, hvols]
+    exact getD_set_self _ _ _ _ hi
+  refine ⟨hi', ?_, ?_, hmin, hmax, ?_⟩
+  · rw [hi']; exact Rat.not_lt.mp hle
+  · intro j hj
+    simp only [Labware.vol, hvols]
+    exact getD_set_ne _ _ _ _ _ hj
+  · rw [hvols, List.length_set]
 
 /-- A refused addition raises the overflow error (and, being an `Except`, changes nothing). -/
 theorem addStep_err (L : Labware) (i : Nat) (v : Rat) (c : Option Comp) (e : Err)
-    (h : L.addStep i v c = .error e) : e = .overflow ∧ L.maxV < L.vol i + v := by
-  sorry
+    (h : L.addStep i v c = .error e) : e = .overflow ∧ L.maxV < L.vol i + v :=
+  Labware.addStep_error h
 
 /-- A removal is accepted iff it does not undercut `min_volume`. -/
 theorem removeStep_ok_iff (L : Labware) (i : Nat) (v : Rat) :
     (∃ L', L.removeStep i v = .ok L') ↔ L.minV ≤ L.vol i - v := by
-  sorry
+  constructor
+  · rintro ⟨L', h⟩
+    exact Rat.not_lt.mp (Labware.removeStep_fields h).1
+  · intro h
+    exact Labware.removeStep_isOk (Rat.not_lt.mpr h)
 
 theorem removeStep_vol (L L' : Labware) (i : Nat) (v : Rat) (hi : i < L.vols.length)
     (h : L.removeStep i v = .ok L') :
     L'.vol i = L.vol i - v ∧ L.minV ≤ L'.vol i ∧ (∀ j, j ≠ i → L'.vol j = L.vol j)
     ∧ L'.minV = L.minV ∧ L'.maxV = L.maxV ∧ L'.vols.length = L.vols.length := by
-  sorry
+  obtain ⟨hle, hvols, hmin, hmax, -⟩ := Labware.removeStep_fields h
+  have hi' : L'.vol i = L.vol i - v := by
+    simp only [Labware.vol, hvols]
+    exact getD_set_self _ _ _ _ hi
+  refine ⟨hi', ?_, ?_, hmin, hmax, ?_⟩
+  · rw [hi']; exact Rat.not_lt.mp hle
+  · intro j hj
+    simp only [Labware.vol, hvols]
+    exact getD_set_ne _ _ _ _ _ hj
+  · rw [hvols, List.length_set]
 
 theorem removeStep_err (L : Labware) (i : Nat) (v : Rat) (e : Err)
-    (h : L.removeStep i v = .error e) : e = .underflow ∧ L.vol i - v < L.minV := by
-  sorry
+    (h : L.removeStep i v = .error e) : e = .underflow ∧ L.vol i - v < L.minV :=
+  Labware.removeStep_error h
 
 /-- Steps preserve the limits invariant (for non-negative volumes). -/
 theorem addStep_valid (L L' : Labware) (i : Nat) (v : Rat) (c : Option Comp) (hv : 0 ≤ v)
     (hL : LabValid L) (h : L.addStep i v c = .ok L') : LabValid L' := by
-  sorry
+  obtain ⟨hle, hvols, hmin, hmax, -⟩ := Labware.addStep_fields h
+  refine ⟨hmin ▸ hL.min_nonneg, by rw [hmin, hmax]; exact hL.min_lt_max, ?_⟩
+  rw [hvols, hmax]
+  refine forall_mem_set _ _ _ hL.range ?_
+  intro hi
+  have h0 := (hL.range _ (getD_mem_of_lt L.vols i 0 hi)).1
+  have hle' := Rat.not_lt.mp hle
+  simp only [Labware.vol] at hle' ⊢
+  constructor <;> grind
 
 theorem removeStep_valid (L L' : Labware) (i : Nat) (v : Rat) (hv : 0 ≤ v)
     (hL : LabValid L) (h : L.removeStep i v = .ok L') : LabValid L' := by
-  sorry
+  obtain ⟨hle, hvols, hmin, hmax, -⟩ := Labware.removeStep_fields h
+  refine ⟨hmin ▸ hL.min_nonneg, by rw [hmin, hmax]; exact hL.min_lt_max, ?_⟩
+  rw [hvols, hmax]
+  refine forall_mem_set _ _ _ hL.range ?_
+  intro hi
+  have h0 := (hL.range _ (getD_mem_of_lt L.vols i 0 hi)).2
+  have hle' := Rat.not_lt.mp hle
+  have hmn := hL.min_nonneg
+  simp only [Labware.vol] at hle' ⊢
+  constructor <;> grind
 
 /-! ### Micro-operations and their execution -/
 
 theorem micro_valid (w w' : World) (m : Micro) (hm : Micro.NonNeg m) (hw : WorldValid w)
     (h : w.micro m = .ok w') : WorldValid w' := by
-  sorry
+  rcases World.micro_labs h with hl | ⟨l, L, L', hL, hl, hcase⟩
+  · intro L hL; exact hw L (hl ▸ hL)
+  · have hLv : LabValid L := hw L (List.mem_of_getElem? hL)
+    have hL'v : LabValid L' := by
+      rcases hcase with ⟨i, v, rfl, hs⟩ | ⟨i, v, c, co, rfl, hs⟩ | ⟨label, rfl⟩ | ⟨n, label, hs⟩
+      · exact removeStep_valid L L' i v hm hLv hs
+      · exact addStep_valid L L' i v co hm hLv hs
+      · exact ⟨hLv.min_nonneg, hLv.min_lt_max, hLv.range⟩
+      · obtain ⟨h1, h2, h3, -⟩ := Labware.condenseLog_fields hs
+        exact ⟨h2 ▸ hLv.min_nonneg, by rw [h2, h3]; exact hLv.min_lt_max, by rw [h1, h3]; exact hLv.range⟩
+    intro M hM
+    rw [hl] at hM
+    rcases List.mem_or_eq_of_mem_set hM with hM | rfl
+    · exact hw M hM
+    · exact hL'v
 
 /-- Execution with early exit: the returned state is the one reached by the executed prefix;
     on an error it is the state in which the failing micro-operation was refused. -/
 theorem exec_decompose (w : World) (ms : List Micro) :
     (∃ w', w.exec ms = (w', none) )
     ∨ (∃ pre m post w' e, ms = pre ++ m :: post ∧ w.exec pre = (w', none) ∧ w'.micro m = .error e
-        ∧ w.exec ms = (w', some e)) := by
-  sorry
+        ∧ w.exec ms = (w', some e)) :=
+  World.exec_decompose w ms
 
 theorem exec_append (w : World) (a b : List Micro) :
     w.exec (a ++ b) = match w.exec a with
       | (w', none) => w'.exec b
-      | (w', some e) => (w', some e) := by
-  sorry
+      | (w', some e) => (w', some e) :=
+  World.exec_append w a b
 
 theorem exec_valid (w : World) (ms : List Micro) (hms : ∀ m ∈ ms, Micro.NonNeg m) (hw : WorldValid w) :
-    WorldValid (w.exec ms).1 := by
-  sorry
+    WorldValid (w.exec ms).1 :=
+  World.exec_invariant (P := WorldValid) (Q := Micro.NonNeg)
+    (fun w w' m hm hw h => micro_valid w w' m hm hw h) w ms hms hw
+
+/-! ### Compiled operations only use non-negative step volumes -/
+
+/-- All micro-operations of a list have non-negative volume arguments. -/
+private abbrev AllNN (ms : List Micro) : Prop := ∀ m ∈ ms, Micro.NonNeg m
+
+private theorem AllNN.nil : AllNN [] := by
+  intro m h; cases h
+
+private theorem AllNN.cons {m : Micro} {ms : List Micro} (h : Micro.NonNeg m) (hs : AllNN ms) :
+    AllNN (m :: ms) := by
+  intro m' h'
+  rcases List.mem_cons.mp h' with rfl | h'
+  · exact h
+  · exact hs m' h'
+
+private theorem AllNN.append {a b : List Micro} (ha : AllNN a) (hb : AllNN b) : AllNN (a ++ b) := by
+  intro m h
+  rcases List.mem_append.mp h with h | h
+  · exact ha m h
+  · exact hb m h
+
+private theorem AllNN.flatMap {α} {l : List α} {f : α → List Micro} (h : ∀ a ∈ l, AllNN (f a)) :
+    AllNN (l.flatMap f) := by
+  intro m hm
+  obtain ⟨a, ha, hm⟩ := List.mem_flatMap.mp hm
+  exact h a ha m hm
+
+private theorem AllNN.fail (e : Err) : AllNN [.fail e] := AllNN.cons trivial AllNN.nil
+
+private theorem AllNN.emit (r : Rec) : AllNN [.emit r] := AllNN.cons trivial AllNN.nil
+
+private theorem AllNN.mapEmit (rs : List Rec) : AllNN (rs.map .emit) := by
+  intro m hm
+  obtain ⟨r, -, rfl⟩ := List.mem_map.mp hm
+  trivial
+
+private theorem AllNN.exceptMicros {α} {x : Except Err α} {f : α → List Micro}
+    (h : ∀ a, AllNN (f a)) : AllNN (exceptMicros x f) := by
+  unfold Robotools.exceptMicros
+  split
+  · exact h _
+  · exact AllNN.fail _
+
+/-- Structural decomposition of a compiled list into pieces known to be non-negative. -/
+local macro "nn_auto" : tactic => `(tactic|
+  repeat (first
+    | assumption
+    | exact AllNN.nil
+    | exact AllNN.fail _
+    | exact AllNN.emit _
+    | exact AllNN.mapEmit _
+    | apply AllNN.append
+    | (apply AllNN.exceptMicros; intro _)
+    | (apply AllNN.flatMap; intro _ _)
+    | apply AllNN.cons (by trivial)
+    | split))
+
+private theorem nonneg_of_not_any {vs : List Rat} (h : ¬ vs.any (· < 0) = true) {v : Rat}
+    (hv : v ∈ vs) : 0 ≤ v := by
+  apply Rat.not_lt.mp
+  intro hlt
+  exact h (List.any_eq_true.mpr ⟨v, hv, by simpa using hlt⟩)
+
+private theorem compileRemove_nn (L : Labware) (l : Nat) (wells : Arr String) (vols : Arr Rat)
+    (label : Option String) : AllNN (compileRemove L l wells vols label) := by
+  unfold compileRemove
+  simp only
+  split
+  · exact AllNN.fail _
+  · split
+    · exact AllNN.fail _
+    · rename_i hany
+      apply AllNN.append
+      · intro m hm
+        obtain ⟨⟨w, v⟩, hmem, rfl⟩ := List.mem_map.mp hm
+        have hv : 0 ≤ v := nonneg_of_not_any hany (List.of_mem_zip hmem).2
+        dsimp only
+        split
+        · exact hv
+        · trivial
+      · exact AllNN.cons trivial AllNN.nil
+
+private theorem compileAdd_nn (L : Labware) (l : Nat) (wells : Arr String) (vols : Arr Rat)
+    (label : Option String) (comps : Option (List (Option Comp))) (carryAll : Bool) :
+    AllNN (compileAdd L l wells vols label comps carryAll) := by
+  unfold compileAdd
+  simp only
+  split
+  · exact AllNN.fail _
+  · split
+    · exact AllNN.fail _
+    · rename_i hany
+      split
+      · exact AllNN.fail _
+      · apply AllNN.append
+        · intro m hm
+          obtain ⟨⟨⟨w, v⟩, c⟩, hmem, rfl⟩ := List.mem_map.mp hm
+          have hv : 0 ≤ v := nonneg_of_not_any hany (List.of_mem_zip (List.of_mem_zip hmem).1).2
+          dsimp only
+          split
+          · exact hv
+          · trivial
+        · exact AllNN.cons trivial AllNN.nil
+
+private theorem commentMicros_nn (c : Option String) : AllNN (commentMicros c) := by
+  unfold commentMicros
+  nn_auto
+
+private theorem emitAD_nn (cfg : Cfg) (L : Labware) (isAsp : Bool) (ws : List String)
+    (vs : List Rat) (kw : KW) : AllNN (emitAD cfg L isAsp ws vs kw) := by
+  unfold emitAD
+  nn_auto
+
+private theorem compileAspirate_nn (cfg : Cfg) (L : Labware) (l : Nat) (wells : Arr String)
+    (vols : Arr Rat) (label : Option String) (kw : KW) :
+    AllNN (compileAspirate cfg L l wells vols label kw) := by
+  unfold compileAspirate
+  exact AllNN.append (AllNN.append (compileRemove_nn _ _ _ _ _) (commentMicros_nn _)) (emitAD_nn _ _ _ _ _ _)
+
+private theorem compileDispense_nn (cfg : Cfg) (L : Labware) (l : Nat) (wells : Arr String)
+    (vols : Arr Rat) (label : Option String) (comps : Option (List (Option Comp))) (kw : KW)
+    (carryAll : Bool) : AllNN (compileDispense cfg L l wells vols label comps kw carryAll) := by
+  unfold compileDispense
+  exact AllNN.append (AllNN.append (compileAdd_nn _ _ _ _ _ _ _) (commentMicros_nn _)) (emitAD_nn _ _ _ _ _ _)
+
+private theorem washMicros_nn (cfg : Cfg) (scheme : Int) : AllNN (washMicros cfg scheme) := by
+  unfold washMicros
+  nn_auto
+
+private theorem actionMicros_nn (cfg : Cfg) (wash : WashArg) : AllNN (actionMicros cfg wash) := by
+  unfold actionMicros
+  have := washMicros_nn cfg
+  nn_auto
+  exact this _
+
+private theorem compileRD_nn (cfg : Cfg) (a : RDArgs) : AllNN (compileRD cfg a) := by
+  unfold compileRD
+  nn_auto
+
+private theorem compileTransfer_nn (cfg : Cfg) (S : Labware) (src : Nat) (srcWells : Arr String)
+    (D : Labware) (dst : Nat) (dstWells : Arr String) (vols : Arr Rat) (label : Option String)
+    (wash : WashArg) (partitionBy : String) (kw : KW) :
+    AllNN (compileTransfer cfg S src srcWells D dst dstWells vols label wash partitionBy kw) := by
+  unfold compileTransfer
+  simp only
+  split
+  · exact AllNN.fail _
+  split
+  · exact AllNN.fail _
+  split
+  · exact AllNN.fail _
+  split
+  · exact AllNN.fail _
+  refine AllNN.append (AllNN.append (commentMicros_nn _) ?_) ?_
+  · apply AllNN.flatMap
+    intro st _
+    split
+    · refine AllNN.append (AllNN.append (compileAspirate_nn _ _ _ _ _ _ _) ?_) (compileDispense_nn _ _ _ _ _ _ _ _ _)
+      nn_auto
+    · exact actionMicros_nn _ _
+    · exact AllNN.emit _
+  · nn_auto
+
+private theorem compileDistribute_nn (cfg : Cfg) (S D : Labware) (a : DistArgs) :
+    AllNN (compileDistribute cfg S D a) := by
+  unfold compileDistribute
+  simp only
+  split
+  · exact AllNN.fail _
+  split
+  · exact AllNN.fail _
+  apply AllNN.exceptMicros
+  intro ps
+  split
+  · split
+    · exact AllNN.fail _
+    · refine AllNN.append (AllNN.append (AllNN.append (AllNN.append (compileRemove_nn _ _ _ _ _) ?_)
+        (compileAdd_nn _ _ _ _ _ _ _)) (commentMicros_nn _)) (compileRD_nn _ _)
+      nn_auto
+  · exact AllNN.fail _
+
+private theorem compileEvoAD_nn (cfg : Cfg) (L : Labware) (l : Nat) (isAsp : Bool) (a : EvoADArgs)
+    (label : Option String) (comps : Option (List (Option Comp))) :
+    AllNN (compileEvoAD cfg L l isAsp a label comps) := by
+  unfold compileEvoAD
+  simp only
+  split
+  · exact AllNN.fail _
+  refine AllNN.append (AllNN.append ?_ (commentMicros_nn _)) ?_
+  · split
+    · exact compileRemove_nn _ _ _ _ _
+    · exact compileAdd_nn _ _ _ _ _ _ _
+  · nn_auto
 
 /-- Every compiled operation only uses non-negative step volumes. -/
 theorem compile_nonneg (w : World) (op : Op) : ∀ m ∈ compile w op, Micro.NonNeg m := by
-  sorry
+  show AllNN (compile w op)
+  unfold compile
+  cases op <;> simp only
+  all_goals
+    repeat (first
+      | exact compileAdd_nn _ _ _ _ _ _ _
+      | exact compileRemove_nn _ _ _ _ _
+      | exact compileAspirate_nn _ _ _ _ _ _ _
+      | exact compileDispense_nn _ _ _ _ _ _ _ _ _
+      | exact compileTransfer_nn _ _ _ _ _ _ _ _ _ _ _ _
+      | exact compileDistribute_nn _ _ _ _
+      | exact commentMicros_nn _
+      | exact washMicros_nn _ _
+      | exact compileRD_nn _ _
+      | exact compileEvoAD_nn _ _ _ _ _ _ _
+      | exact AllNN.fail _
+      | exact AllNN.emit _
+      | exact AllNN.cons (by trivial) AllNN.nil
+      | (apply AllNN.exceptMicros; intro _)
+      | split)
 
 /-! ### The property -/
 
 /-- After every operation — accepted or rejected, whatever it is — all wells of all labware are
     within `[0, max_volume]`. -/
-theorem step_limits (w : World) (op : Op) (hw : WorldValid w) : WorldValid (w.step op).1 := by
-  sorry
+theorem step_limits (w : World) (op : Op) (hw : WorldValid w) : WorldValid (w.step op).1 :=
+  exec_valid w (compile w op) (compile_nonneg w op) hw
 
 /-- Running any sequence of operations, continuing after rejected ones. -/
 def runAll (w : World) : List Op → World
@@ -108,14 +380,35 @@ def runAll (w : World) : List Op → World
 
 /-- The invariant holds in every reachable state of every history (including rejected operations). -/
 theorem world_limits (w : World) (ops : List Op) (hw : WorldValid w) : WorldValid (runAll w ops) := by
-  sorry
+  induction ops generalizing w with
+  | nil => exact hw
+  | cons op ops ih => exact ih _ (step_limits w op hw)
 
 /-- Constructed labware satisfies the invariant, so every reachable state of a program does. -/
 theorem mk_valid (s : PlateSpec) (L : Labware) (h : Labware.mk? s = .ok L) : LabValid L := by
-  sorry
+  obtain ⟨h1, h2, hmin, hmax, flat, hneg, hle, hvols⟩ := Labware.mk?_spec h
+  refine ⟨hmin ▸ Rat.not_lt.mp h1, by rw [hmin, hmax]; exact Rat.not_le.mp h2, ?_⟩
+  intro v hv
+  rw [hmax]
+  constructor
+  · rw [hvols] at hv
+    obtain ⟨x, hx, rfl⟩ := List.mem_map.mp hv
+    apply Rat.not_lt.mp
+    intro hlt
+    apply hneg
+    refine List.any_eq_true.mpr ⟨x, hx, ?_⟩
+    cases x with
+    | none => rfl
+    | some q => simpa using hlt
+  · apply Rat.not_lt.mp
+    intro hlt
+    apply hle
+    rw [← hvols]
+    exact List.any_eq_true.mpr ⟨v, hv, by simpa using hlt⟩
 
 theorem trough_mk_valid (s : TroughSpec) (L : Labware) (h : Trough.mk? s = .ok L) : LabValid L := by
-  sorry
+  obtain ⟨p, -, -, hp⟩ := Trough.mk?_spec h
+  exact mk_valid p L hp
 
 /-- Non-vacuity: a concrete valid world and an operation that is rejected at the limit. -/
 example : (Labware.addStep { name := "P", geom := ⟨1, 1, none⟩, minV := 0, maxV := 10, vols := [4], comp := [], hist := [] }
